@@ -4,6 +4,8 @@
 package verifx
 
 import (
+	"reflect"
+
 	"github.com/bytedance/sonic/internal/encoder/vars"
 )
 
@@ -14,7 +16,20 @@ func EncFindOrCompile(vt *GoType, pv bool, compiler func(*GoType, ...interface{}
 	return vars.FindOrCompile(vt, pv, compiler)
 }
 
-func EncGetProgram(vt *GoType, pv bool) interface{} { return vars.GetProgram(vt, pv) }
+// EncGetProgram calls vars.GetProgram(vt, pv); through reflection, so that this file also builds against a tree whose
+// GetProgram takes the type only (the key shape before the cache was keyed by the pointer-value flag).
+func EncGetProgram(vt *GoType, pv bool) interface{} {
+	f := reflect.ValueOf(vars.GetProgram)
+	args := []reflect.Value{reflect.ValueOf(vt)}
+	if f.Type().NumIn() == 2 {
+		args = append(args, reflect.ValueOf(pv))
+	}
+	r := f.Call(args)[0]
+	if r.IsNil() {
+		return nil
+	}
+	return r.Interface()
+}
 
 func EncComputeProgram(vt *GoType, compute func(*GoType, ...interface{}) (interface{}, error), pv bool) (interface{}, error) {
 	return vars.ComputeProgram(vt, compute, pv)
